@@ -71,6 +71,9 @@ def oracle(ctx, names, cs, act, kind, val, log, tape):
                 if held2 != exp_held or g2[f[0]][f[1]] != exp_cell or (p2, o2) != (p, o):
                     ctx.violation('pickndrop: wrong pick / drop / swap', case)
     else:
+        if 5 in names and act == 6 and infront is not None and infront[0] == BOX_T and 3 not in names and 6 not in names[:names.index(5)] \
+                and g2[f[0]][f[1]] != infront[3]:
+            ctx.violation('in a composition, an actuated box was not replaced by exactly its content', case)
         # compositions: the unwrapped inventory (box wrappers removed) is conserved by everything
         def deep(c):
             while c[0] == BOX_T and c[3] is not None:
@@ -111,6 +114,18 @@ def cases(ctx):
                     g = gen.set_cell(g, nb, front_obj)
                 yield ([2], (g, (1, 1), o, held), 7, 'pickndrop-table')
     yield from tsuite.random_cases(ctx, n, focus=[2, 3, 5, 2], hi=6, floor_bias=0.4)
+    # boxes inside boxes: one ACTUATE removes exactly one wrapper
+    for inner in objs[:25]:
+        for depth in (2, 3):
+            b = inner
+            for _ in range(depth):
+                b = (BOX_T, 0, 0, b)
+            for o in range(4):
+                g = tuple(tuple(F for _ in range(3)) for _ in range(3))
+                for nb in ((0, 1), (1, 0), (1, 2), (2, 1)):
+                    g = gen.set_cell(g, nb, b)
+                yield ([5], (g, (1, 1), o, gen.NONE), 6, 'nested-box')
+                yield ([0, 1, 4, 5, 2], (g, (1, 1), o, gen.NONE), 6, 'nested-box')
     yield from tsuite.wrap_cases(ctx, n // 2, focus=[2, 3, 5])
     # long-ish histories on key / obstacle grids are covered by compositions of up to 5 functions here and by C01's trajectories
 
